@@ -25,6 +25,20 @@ var cmapKeyed = map[string]bool{"Get": false, "Set": true, "SetIfExist": true, "
 // keyspaceAccess recognises m.db.X(key,...) / m.ttlKeys.X(key,...) calls.
 func (c *C) keyspaceAccess(ci ssa.CallInstruction) *ksAccess {
 	f := callee(ci)
+	if f != nil && !isMethodOf(f, c.Facts.CMap) && firstParty(f) && f.Blocks != nil {
+		// a thin wrapper that is handed the map itself: getAs[T](m.ttlKeys, key) = Get + type assertion
+		if mi, ki, meth, ok := c.cmapWrapper(f); ok {
+			args := ci.Common().Args
+			if mi < len(args) && ki < len(args) {
+				for _, fld := range []string{"db", "ttlKeys"} {
+					if isFieldLoad(args[mi], c.Facts.MemDb, fld) {
+						return &ksAccess{In: ci, Map: fld, Method: meth, Key: args[ki], Write: cmapKeyed[meth]}
+					}
+				}
+			}
+		}
+		return nil
+	}
 	if f == nil || !isMethodOf(f, c.Facts.CMap) {
 		return nil
 	}
@@ -809,4 +823,74 @@ func returnsFresh(fn *ssa.Function, depth int) bool {
 		}
 	}
 	return any
+}
+
+
+// cmapWrapper: fn takes a *ConcurrentMap parameter (index mi) and a key parameter (index ki) and its only use of the map
+// is one keyed method call M(map, key): a typed getter or the like. Returns the parameter indexes and M.
+func (c *C) cmapWrapper(fn *ssa.Function) (mi, ki int, meth string, ok bool) {
+	fn0 := origin(fn)
+	if c.wrapMemo == nil {
+		c.wrapMemo = map[*ssa.Function][4]int{}
+		c.wrapMeth = map[*ssa.Function]string{}
+	}
+	if r, done := c.wrapMemo[fn0]; done {
+		return r[0], r[1], c.wrapMeth[fn0], r[2] == 1
+	}
+	c.wrapMemo[fn0] = [4]int{0, 0, 0, 0}
+	mi, ki = -1, -1
+	for i, p := range fn.Params {
+		if isNamed(p.Type(), c.Facts.CMap) {
+			if mi >= 0 {
+				return 0, 0, "", false
+			}
+			mi = i
+		}
+	}
+	if mi < 0 || fn.Signature.Recv() != nil {
+		return 0, 0, "", false
+	}
+	n := 0
+	for _, b := range fn.Blocks {
+		for _, in := range b.Instrs {
+			ci, isCall := in.(ssa.CallInstruction)
+			if !isCall {
+				continue
+			}
+			cf := callee(ci)
+			args := ci.Common().Args
+			usesMap := false
+			for _, a := range args {
+				if a == ssa.Value(fn.Params[mi]) {
+					usesMap = true
+				}
+			}
+			if !usesMap {
+				continue
+			}
+			if cf == nil || !isMethodOf(cf, c.Facts.CMap) || len(args) < 2 || args[0] != ssa.Value(fn.Params[mi]) {
+				return 0, 0, "", false
+			}
+			if _, keyed := cmapKeyed[cf.Name()]; !keyed {
+				return 0, 0, "", false
+			}
+			kp, isP := args[1].(*ssa.Parameter)
+			if !isP {
+				return 0, 0, "", false
+			}
+			for i, p := range fn.Params {
+				if p == kp {
+					ki = i
+				}
+			}
+			meth = cf.Name()
+			n++
+		}
+	}
+	if n != 1 || ki < 0 {
+		return 0, 0, "", false
+	}
+	c.wrapMemo[fn0] = [4]int{mi, ki, 1, 0}
+	c.wrapMeth[fn0] = meth
+	return mi, ki, meth, true
 }
